@@ -8,6 +8,12 @@ CHECKS = {
          "Generated frames and byte streams (all 256 command bytes, boundary ids and lengths incl. >65535, every single-cut position of short streams, random multi-cuts, raw bytes) are run through the real FrameCodec and compared with an independent reference codec; sampling, exhaustive only on the small enumerated grids.",
          "trusts the reference codec written from the protocol description and bytes/tokio-util", "DESIGN.md §3 C03"),
 }
+CHECKS["C04"] = ("exploration", "property-based testing with a reference wire parser (proptest): generated schemes x generated API call sequences on the real client session over a recording in-memory transport; erase-padding equality",
+         "Generated padding schemes (everything the scheme parser accepts, sizes 1..2^63-1) and call sequences; after every call the recorded wire must parse under the reference codec and, with padding erased, equal the reference encoding of the submitted frames. Sampling.",
+         "trusts the reference codec/scheme reader, tokio's paused clock and current-thread scheduler, the harness pipe", "DESIGN.md §3 C04")
+CHECKS["C05"] = ("exploration", "property-based testing against a nondeterministic reference acceptor for packet shapes (proptest)",
+         "Generated satisfiable schemes and single-writer call sequences with payload sizes around the range bounds; each packet's logged write lengths must be explained by the reference acceptor for its line; preamble padding and server-side no-padding checked in separate families. Sampling.",
+         "trusts the reference acceptor (DESIGN Appendix A.1); a packet = the transport writes logged during one API call of a single writer", "DESIGN.md §3 C05")
 NOT_YET = {}
 
 def main():
